@@ -12,8 +12,10 @@ from .harness import signature
 
 
 class Shrinker(object):
-    def __init__(self, harness, sig, budget=600):
+    def __init__(self, harness, sig, budget=600, execute=None):
         self.h = harness
+        self._execute = execute or harness.execute  # the runner passes its guarded execute (wall alarm)
+        self.hangs = 0
         self.sig = tuple(sig)
         self.budget = budget
         self.steps = 0
@@ -24,9 +26,13 @@ class Shrinker(object):
             return None
         self.steps += 1
         try:
-            res = self.h.execute(scenario)
+            res = self._execute(scenario)
         except Exception:
             return None
+        if any(v["oracle"] == "hang" for v in res.violations):
+            self.hangs += 1
+            if self.hangs >= 2 and self.sig[0] != "hang":
+                self.steps = self.budget  # candidates that hang cost the full wall each: stop here
         for v in res.violations:
             if signature(v) == self.sig:
                 return v
